@@ -6,6 +6,7 @@
    MODE fixed     line = hex(treef dump)            -> same, for the resolver with all three truncate flags on
    MODE alpha     line = hex(treef dump) TAB hex(treef dump)
                                                     -> ALPHA t|f  (AlphaDef.alpha_ast on the two programs)
+   MODE order1    like order, with assignment targets counted as dependencies
    MODE order     line = resolved sexp (tools/resolved_io.py)
                                                     -> ORDER <spans of the ordered statements> | CYCLE <spans> | OUTOFFUEL
                                                        DEPS <var:dep,dep;...>
@@ -170,10 +171,11 @@ let () =
          | "spec" ->
              let ast = read_past (unhex_line line) in
              print_result ast (resolve_spec ast)
-         | "order" ->
+         | "order" | "order1" ->
+             (* order1: the variant of statement_dependencies that counts assignment targets *)
              let r = read_resolved line in
              Buffer.clear b;
-             (match init_order gen_assign_target_deps r.r_stmts with
+             (match init_order (if mode = "order1" then true else gen_assign_target_deps) r.r_stmts with
               | OOk l -> ps "ORDER "; p_stmts l
               | OCycle c -> ps "CYCLE "; p_list (fun s -> p_sp (stmt_span s)) c
               | OOutOfFuel -> ps "OUTOFFUEL");
